@@ -42,7 +42,9 @@ CHECKS = {
  "C16": ("4 C16", "R1: the recodings reconstruct every scaled scalar with digits in range (TLC, exhaustive over 16 bits); R2: complete enumeration of the selector domain 32 x 17 on every backend; "
          "R3: selector entries (niels relation), fixed-base and double-base results validated by TLC in exact arithmetic against the Z_L x Z_8 coordinates; projection audited bit by bit in TLA+"),
  "C18": ("4 C18", "R3 (sampling with an exact oracle): every field operation of both limb layouts on limb-boundary inputs and on the operand classes the group law produces; TLC computes the represented integers "
-         "from the limbs and checks the residue identity, canonical serialisation, parsing and conditional swap in BigNat arithmetic; R1: decode algorithm over small fields"),
+         "from the limbs and checks the residue identity, canonical serialisation, parsing and conditional swap in BigNat arithmetic; R1 (TLC, exhaustive at scaled sizes): limb-level transcriptions of both layouts "
+         "(FieldLimbs: 5x51 at 3x3 bits; FieldLimbs32: 10x25.5 at 4 and 6 alternating limbs incl. Mul's in-place doubling and Sub's partial carry) - exact residues, no underflow, canonical Contract for every representation, "
+         "with refuted controls; decode algorithm over small fields"),
  "C19": ("4 C19", "R1: recodings exhaustive at scaled size (TLC); R3 (sampling with an exact oracle): reduction of 0..64-byte strings at every quotient size and boundary, Add/Mul/Contract/reduce, both recodings "
          "(digit sum = value, digit ranges, digit-for-digit equality with the TLA+ transcription), vartime helpers; both limb layouts; all identities evaluated by TLC in BigNat"),
  "C17": ("4 C17", "R1: exhaustive TLC model check of the Bos-Coster heap algorithm (2-bit limbs, formal points): sum preserved at every step, truncated comparisons exact, heap order, result exact unless "
